@@ -40,9 +40,9 @@ def start_retry(make, prepare=None, tries=4):
         except RuntimeError as e:
             last = str(e)
             sq.stop()
-            if any(x in last for x in LOST) or any(x in sq.log_text() for x in LOST):
-                continue
-            raise
+            if "Bungled" in last or "FATAL: " in sq.log_text() and not any(x in sq.log_text() for x in LOST):
+                raise      # squid refuses this configuration: retrying cannot help
+            continue       # port lost, or the (shared, loaded) machine stalled the start: try again
         if wait_listening(sq, 0, 30) and sq.alive():
             return sq
         log = sq.log_text()
